@@ -90,7 +90,7 @@ def grid_dataset(ctx, conv, shape, as_coords=True):
     return ds, cv, kinds
 
 
-def mesh_dataset(ctx, mesh, supply, start_index, fill, transposed=False, fill_value=None, coords_as_coords=False):
+def mesh_dataset(ctx, mesh, supply, start_index, fill, transposed=False, fill_value=None, coords_as_coords=False, with_edges=True):
     from emsarray.conventions.ugrid import UGrid
     nodes, faces = builders.MESHES[mesh]
     ne = len(builders.mesh_edges(faces)[0])
@@ -113,7 +113,11 @@ def mesh_dataset(ctx, mesh, supply, start_index, fill, transposed=False, fill_va
         derived = [frozenset(int(v) for v in e) for e in Mesh2DTopology(builders.ugrid(mesh, with_edges=True)).edge_node_array]
         mine = [frozenset(e) for e in builders.mesh_edges(faces)[0]]
         edge_order = [mine.index(e) for e in derived]
-    ds = builders.ugrid(mesh, supply=supply, start_index=start_index, fill=fill, transposed=transposed, with_edges=True, data_vars=data,
+    if not with_edges:
+        # a mesh without any edges: no edge dimension, no edge data
+        data = {k: v for k, v in data.items() if 'nedge' not in v[0]}
+        ne = None
+    ds = builders.ugrid(mesh, supply=supply, start_index=start_index, fill=fill, transposed=transposed, with_edges=with_edges, data_vars=data,
                         edge_order=edge_order, fill_value=fill_value, coords_as_coords=coords_as_coords)
     ds.attrs['title'] = 'clip me'
     return ds, UGrid(ds), (nodes, faces, ne)
@@ -273,16 +277,22 @@ def check_mesh_values(ctx, ds, out, info, kept_faces):
     nodes, faces, ne = info
     from emsarray.conventions.ugrid import Mesh2DTopology
     topo = Mesh2DTopology(ds)
-    en = [frozenset(int(x) for x in e) for e in topo.edge_node_array]
     keep_nodes = sorted({v for f in kept_faces for v in faces[f]})
-    pairs = {frozenset(p) for f in kept_faces for p in zip(faces[f], faces[f][1:] + faces[f][:1])}
-    keep_edges = [e for e in range(len(en)) if en[e] in pairs]
+    keep_edges = []
+    if ne is not None:
+        en = [frozenset(int(x) for x in e) for e in topo.edge_node_array]
+        pairs = {frozenset(p) for f in kept_faces for p in zip(faces[f], faces[f][1:] + faces[f][:1])}
+        keep_edges = [e for e in range(len(en)) if en[e] in pairs]
     for dim, idname, keep in (('nface', 'id_face', sorted(kept_faces)), ('nnode', 'id_node', keep_nodes), ('nedge', 'id_edge', keep_edges)):
+        if dim == 'nedge' and ne is None:
+            continue
         got = [int(v) for v in out[idname].values]
         ctx.check(got == keep, f'{dim}: exactly the selected elements remain, in their original relative order')
         ctx.check(out[idname].dtype == ds[idname].dtype, f'{dim}: integer variable keeps its type')
     for name, dim, keep in (('v_face', 'nface', sorted(kept_faces)), ('w_face', 'nface', sorted(kept_faces)),
                             ('v_node', 'nnode', keep_nodes), ('v_edge', 'nedge', keep_edges)):
+        if dim == 'nedge' and ne is None:
+            continue
         src, res = ds[name], out[name]
         ctx.check(res.dims == src.dims, f'{name} keeps its dimension order')
         other = [d for d in src.dims if d != dim]
@@ -304,8 +314,9 @@ def check_mesh_values(ctx, ds, out, info, kept_faces):
     ctx.check([n for n in out.data_vars if n in ds.data_vars] == [n for n in ds.data_vars if n in out.data_vars], 'variable order preserved')
 
 
-def body_mesh(ctx, mesh, supply, start_index, fill, buffer, via, check='values', transposed=False, fill_value=None, coords_as_coords=False):
-    ds, cv, info = mesh_dataset(ctx, mesh, supply, start_index, fill, transposed, fill_value, coords_as_coords)
+def body_mesh(ctx, mesh, supply, start_index, fill, buffer, via, check='values', transposed=False, fill_value=None, coords_as_coords=False,
+              with_edges=True):
+    ds, cv, info = mesh_dataset(ctx, mesh, supply, start_index, fill, transposed, fill_value, coords_as_coords, with_edges)
     nodes, faces, ne = info
     chosen, clips = clipcommon.choose_hits(ctx, cv, cv.polygons)
     ctx.note('clip', dict(mesh=mesh, supply=list(supply), hits=chosen, buffer=buffer, via=via))
@@ -353,8 +364,11 @@ def cases(tier, check='values'):
     for mesh, supply, kw in (('tqp', ('edge_node', 'face_edge', 'edge_face'), dict(start_index=1, fill='nan', fill_value=0)),
                              ('qqq', ('edge_node',), dict(start_index=0, fill='nan')),
                              # node coordinates held as xarray coordinates (named in a `coordinates` attribute)
-                             ('tqp', ('edge_node',), dict(start_index=0, fill='nan', coords_as_coords=True))):
-        yield Case(f'{check}:mesh:{mesh}:{"+".join(supply)}:start{kw["start_index"]}:{kw["fill"]}:fill{kw.get("fill_value")}:coords{int(kw.get("coords_as_coords", False))}:buf0:clip', body_mesh,
+                             ('tqp', ('edge_node',), dict(start_index=0, fill='nan', coords_as_coords=True)),
+                             # a mesh without edges that stores its face adjacency
+                             ('tqp', ('face_face',), dict(start_index=1, fill='nan', with_edges=False)),
+                             ('qqq', ('face_face',), dict(start_index=0, fill='attr', with_edges=False))):
+        yield Case(f'{check}:mesh:{mesh}:{"+".join(supply)}:start{kw["start_index"]}:{kw["fill"]}:fill{kw.get("fill_value")}:coords{int(kw.get("coords_as_coords", False))}:edges{int(kw.get("with_edges", True))}:buf0:clip', body_mesh,
                    dict(mesh=mesh, supply=supply, buffer=0, via='clip', check=check, **kw), patches=_patches, max_paths=2000)
     supplies = [(), ('edge_node',), ('edge_node', 'face_edge'), ('edge_node', 'edge_face'), ('edge_node', 'face_face'),
                 ('edge_node', 'face_edge', 'edge_face', 'face_face'),
